@@ -76,6 +76,8 @@ def run(ctx):
     import roles as _roles
     _roles.rule_R_ROLE(ctx, modules=('conversion::string::impl_lexical::parser', 'conversion::inter_type', 'enum_narsese::', 'lexical::'))
     _roles.rule_A_NAMES(ctx, modules=('conversion::string::impl_lexical::parser', 'conversion::inter_type', 'enum_narsese::', 'lexical::'))
+    import lskel as _lskel
+    _lskel.rule_L_SKELETON(ctx, which=('lexical', 'fold'), floor=10)
     ctx.undecided = ["the lower-bound half `a <= b` of the two `env[a..b]` sites (parse_items term region, segment_atom name region), the underflow "
                      "obligations `len - k`, and the closure slice of segment_atom rest on reviewed reasons (T-DISJOINT, P-GUARD); the upper bounds "
                      "of all lexical slice sites are machine-proved by B-LEN", "stack depth",
